@@ -496,6 +496,9 @@ pub fn gen_problem(rng: &mut Rng) -> Problem {
     let c = match kind {
         Kind::OddPower => (9 + 2 * rng.below(12)) as f64,
         Kind::FlatExp => rng.r(0.5, 3.0),
+        // steep exponentials (a quarter of the exponential cases): end values that differ by hundreds of
+        // orders of magnitude, up to an end value that overflows to infinity (still of definite sign)
+        Kind::Exp if (r.to_bits() >> 4) % 4 == 0 => 10f64.powf(1.0 + 2.3 * (((r.to_bits() >> 6) % 1024) as f64 / 1024.0)),
         _ => c,
     };
     let mut end_root = false;
@@ -547,7 +550,10 @@ pub fn gen_problem(rng: &mut Rng) -> Problem {
                     b = r + 2.0 * (b - r);
                 }
             }
-            if !flat && rng.below(8) == 0 {
+            // (an end point on the root: not for the steep exponentials, where the other end value may be
+            // infinite and 0 x infinity has no sign - such a call is outside the premise altogether)
+            let steep = kind == Kind::Exp && c >= 10.0;
+            if !flat && rng.below(8) == 0 && !steep {
                 end_root = true;
                 if rng.bool() {
                     a = r;
@@ -581,6 +587,14 @@ fn gen_itp_params(rng: &mut Rng) -> (f64, f64, f64) {
 fn random_case(rng: &mut Rng, rep: &mut Report) {
     let mut p = gen_problem(rng);
     let tol = rng.log10(-12.0, -2.0);
+    if p.f.kind == Kind::Exp && p.f.c >= 10.0 {
+        let (va, vb) = (p.f.eval(p.a).abs(), p.f.eval(p.b).abs());
+        if va.is_infinite() || vb.is_infinite() {
+            rep.count("problems/steep_exponential_with_an_infinite_end_value", 1);
+        } else if va.max(vb) > 1e17 * va.min(vb) {
+            rep.count("problems/steep_exponential_with_end_values_1e17_apart", 1);
+        }
+    }
     // several roots of the sine inside and one END VALUE already below the tolerance (the end point
     // sits just outside an outer root): a point where |f| < tol is not a root location unless the
     // sign changes within tol of it - which it does here, so returning that end is right, returning
@@ -877,6 +891,64 @@ fn anchor_case(rep: &mut Report, i: u64) {
     }
 }
 
+/// Huge finite end values: s*(exp(c*(x-r))-1) with c*(end-r) in [690, 709.7], i.e. |f(end)| between
+/// 1e299 and the largest finite number. Products such as f(a)*b then overflow although every function
+/// value is finite. The first four cases are the pinned inputs on which itp once left the bracket
+/// (its interpolation point (f_b a - f_a b)/(f_b - f_a) overflowed to infinity: D40).
+fn huge_value_case(rep: &mut Report, i: u64, seed: u64) {
+    let pinned: [(f64, f64, f64, f64, f64, f64, f64, f64, f64); 4] = [
+        (2.803386131482869, -102.55939876753389, 1944.3280036580306, -102.7559846880287, -100.51846633906962, 4.5317739335577376e-08, 0.0013272308452653408, 1.1709419794948535, 2.3937004741127774),
+        (0.8020825014306796, -2.7337100731569426, 294.4050887848695, -2.751118495003103, -0.324894797984157, 1.265247126652537e-08, 0.6390140810594062, 1.824251378658464, 2.0),
+        (1.7930760330929085, -99.36905274047976, 440.69753872250067, -99.41801655592701, -96.1192380941598, 2.650329316006551e-10, 0.05052659472832782, 2.0244971893254275, 1.0),
+        (-0.43842619143102257, 100.98340491289586, 1195.7398931863966, 101.57401877765025, 97.64238309152071, 3.8616040142747994e-08, 0.21347024538255474, 2.0, 1.1693696580984736),
+    ];
+    let (f, a, b, tol, k1, k2, n0);
+    if (i as usize) < pinned.len() {
+        let p = pinned[i as usize];
+        f = Func::simple(Kind::Exp, p.1, p.0, p.2);
+        a = p.3;
+        b = p.4;
+        tol = p.5;
+        k1 = p.6;
+        k2 = p.7;
+        n0 = p.8;
+    } else {
+        let mut rng = Rng::for_case(seed, "c07-huge", i);
+        let r = gen_centre(&mut rng);
+        let sg = rng.sign() * rng.r(0.2, 3.0);
+        let c = rng.log10(1.0, 3.3);
+        // the huge end: exponent u with |s| e^u finite
+        let u = rng.r(690.0, 709.7 - sg.abs().ln().max(0.0));
+        let hi_end = r + u / c;
+        let lo_end = r - rng.log10(-2.0, 0.5);
+        f = Func::simple(Kind::Exp, r, sg, c);
+        if !(f.eval(hi_end).is_finite() && f.eval(hi_end).abs() > 1e290) {
+            return;
+        }
+        let swap = rng.bool();
+        a = if swap { hi_end } else { lo_end };
+        b = if swap { lo_end } else { hi_end };
+        tol = rng.log10(-12.0, -2.0);
+        let pr = gen_itp_params(&mut rng);
+        k1 = pr.0;
+        k2 = pr.1;
+        n0 = pr.2;
+    }
+    let expect = match classify(&f, a, b) {
+        Some(e) => e,
+        None => {
+            rep.harness_errors.push(format!("C07 huge-value generator produced a bracket without sign change: {:?} a={:e} b={:e}", f, a, b));
+            return;
+        }
+    };
+    rep.count("problems/huge_finite_end_value", 1);
+    let (lo, hi) = (a.min(b), a.max(b));
+    let l = ceil_log2((hi - lo) / tol);
+    run_and_note(rep, &Exec { f: &f, a: lo, b: hi, tol, solver: Solver::Bis { n_max: (l + BIS_OK_MARGIN) as usize }, expect });
+    run_and_note(rep, &Exec { f: &f, a, b, tol, solver: Solver::Brent, expect });
+    run_and_note(rep, &Exec { f: &f, a, b, tol, solver: Solver::Itp { k1, k2, n0 }, expect });
+}
+
 // ---------------------------------------------------------------- stages
 
 pub fn stages(ctx: &Ctx) -> Vec<Stage> {
@@ -893,6 +965,7 @@ pub fn stages(ctx: &Ctx) -> Vec<Stage> {
         let mut rng = Rng::for_case(seed, "c07-random", i);
         random_case(&mut rng, rep);
     }));
+    st.push(Stage::new("huge-values", tier.pick(20_000, 200_000), move |i, rep| huge_value_case(rep, i, seed)));
     // exact-hit grid: complete in both tiers; thorough adds m <= 6, more tolerances, and the same
     // grid translated by 64 (dyadic, far from zero)
     let mj = mj_list(tier.pick(4, 6));
@@ -909,6 +982,9 @@ pub fn thresholds(ctx: &Ctx, rep: &Report) -> Vec<Threshold> {
     let q = |a: f64, b: f64| ctx.tier.pick(a, b);
     let mut t = vec![];
     t.push(Threshold { what: "brackets over several roots of a sine with one end value already below the tolerance".into(), required: ctx.tier.pick(500.0, 5_000.0), observed: rep.counter("problems/several_roots_and_an_end_value_below_tol") as f64 });
+    t.push(Threshold { what: "brackets with a finite end value above 1e290".into(), required: ctx.tier.pick(15_000.0, 150_000.0), observed: rep.counter("problems/huge_finite_end_value") as f64 });
+    t.push(Threshold { what: "steep exponentials whose finite end values differ by more than 1e17".into(), required: ctx.tier.pick(1_000.0, 10_000.0), observed: rep.counter("problems/steep_exponential_with_end_values_1e17_apart") as f64 });
+    t.push(Threshold { what: "steep exponentials with an end value that overflows to infinity".into(), required: ctx.tier.pick(100.0, 1_000.0), observed: rep.counter("problems/steep_exponential_with_an_infinite_end_value") as f64 });
     for s in ["bisection", "brent", "itp"] {
         t.push(Threshold { what: format!("{}: runs on valid brackets judged by the full oracle", s), required: q(100_000.0, 800_000.0), observed: rep.counter(&format!("{}/valid_runs", s)) as f64 });
         t.push(Threshold { what: format!("{}: same-sign brackets (Err expected)", s), required: q(6_000.0, 60_000.0), observed: rep.counter(&format!("{}/err_expected/same-sign-end-values", s)) as f64 });
